@@ -249,6 +249,9 @@ func c11Loopback(c *Ctx) {
 			var recvT int64
 			sent := make(chan struct{}, 1)
 			fm.SetScript(func(ep *farm.Endpoint, src net.Addr, req []byte, seq uint64) []farm.Action {
+				if len(req) != 64 || req[1] != 0x94 || req[4]|req[5]|req[6]|req[7] != 0 {
+					return nil // not a discovery request (the call that holds the fixed bind port in the queued cases): silence
+				}
 				mu.Lock()
 				replies := cur
 				recvT = farm.Mono()
@@ -288,7 +291,22 @@ func c11Loopback(c *Ctx) {
 					names[s] = fmt.Sprintf("ctl-%d", k)
 					cfg.Devices = append(cfg.Devices, DevCfg{ID: s, Name: names[s], Addr: fmt.Sprintf("127.0.0.1:%d", 50000+k), Proto: "udp"})
 				}
-				replies := c11Mix(r, r.Pick(30), serials)
+				// every fourth case: a fixed bind port that another call is holding when the discovery starts - the discovery
+				// waits its turn and must then collect replies for a full timeout of its own
+				queued := i%4 == 1
+				nReplies := r.Pick(30)
+				var holder sync.WaitGroup
+				if queued {
+					if p := freePort(workerIP(c, w)); p != 0 {
+						cfg.Bind = fmt.Sprintf("%s:%d", workerIP(c, w), p)
+						if nReplies < 8 {
+							nReplies = 8 + r.Pick(20)
+						}
+					} else {
+						queued = false
+					}
+				}
+				replies := c11Mix(r, nReplies, serials)
 				// timing classes keep the send order: must..., then grey..., then late...
 				nLate, nGrey := r.Pick(3), r.Pick(3)
 				for k, rep := range replies {
@@ -305,9 +323,24 @@ func c11Loopback(c *Ctx) {
 				cur = replies
 				mu.Unlock()
 				u := mkClient(cfg)
+				if queued {
+					holder.Add(1)
+					h := mkClient(cfg)
+					go func() {
+						defer holder.Done()
+						h.GetTime(0x7fff0000 + uint32(i)) // not configured: broadcast-to, nobody answers, holds the port for T
+					}()
+					time.Sleep(T * 4 / 10)
+					c.Res.Count("loopback:discoveries-queued-behind-another-call-on-a-fixed-port", 1)
+				}
 				start := time.Now()
 				list, err := u.GetDevices()
 				elapsed := time.Since(start)
+				holder.Wait()
+				if queued && err != nil && (strings.Contains(err.Error(), "address already in use") || strings.Contains(err.Error(), "cannot assign requested address")) {
+					c.Res.Inconcl("bind collision on a fixed port: " + err.Error())
+					continue
+				}
 				<-sent
 				c.Res.Eval(1)
 				seq := []string{}
@@ -321,7 +354,7 @@ func c11Loopback(c *Ctx) {
 				c.Res.DistinctKey("loopback", strings.Join(seq, ","))
 				c.Res.Count("loopback:discoveries", 1)
 				c.Res.Count("loopback:replies", int64(len(replies)))
-				wv := map[string]any{"layer": "loopback", "classes": seq, "entries": len(list), "elapsed_ms": elapsed.Milliseconds(), "T_ms": T.Milliseconds()}
+				wv := map[string]any{"layer": "loopback", "classes": seq, "entries": len(list), "elapsed_ms": elapsed.Milliseconds(), "T_ms": T.Milliseconds(), "queued_behind_another_call_on_a_fixed_bind_port": queued}
 				if err != nil {
 					c.Res.Violate("C11:noise-fails-call", "GetDevices failed because of the replies it received: "+err.Error(), wv, caseNo)
 					continue
@@ -332,7 +365,7 @@ func c11Loopback(c *Ctx) {
 				if msg, class := c11Compare(list, replies, port, names); msg != "" {
 					c.Res.Violate("C11:loopback:"+class, "GetDevices: "+msg, wv, caseNo)
 				}
-				if elapsed < T*93/100 || elapsed > T+1500*time.Millisecond {
+				if elapsed < T*93/100 || elapsed > T+1500*time.Millisecond+map[bool]time.Duration{true: T * time.Duration(2*workers+1), false: 0}[queued] { // the bind port guard is process wide: the queued cases of all workers wait for each other
 					c.Res.Violate("C11:loopback:duration", fmt.Sprintf("GetDevices collected replies for %v, the timeout is %v", elapsed, T), wv, caseNo)
 				}
 				_ = recvT
